@@ -560,6 +560,7 @@ class CallMixin:
                     return T(STR, f"(ite (str.prefixof {x.s} {recv.s}) (str.substr {recv.s} (str.len {x.s}) (- (str.len {recv.s}) (str.len {x.s}))) {recv.s})")
             if at in ("strip", "rstrip", "lstrip", "lower", "upper", "title", "replace", "split", "rsplit", "splitlines") and all(not isinstance(a, ast.Starred) for a in n.args) and not n.keywords:
                 args = [self.ev(a, st, old) for a in n.args]
+                args = [unopt(a) if isinstance(a, T) and a.sort == ("Opt", STR) else a for a in args]    # an Optional[str] argument is a str where the call is reached
                 if all(isinstance(a, T) and a.sort in (STR, INT) for a in args):
                     ret = ("Seq", STR) if at in ("split", "rsplit", "splitlines") else STR
                     return c.app(f"str_{at}{len(args)}", [STR] + [a.sort for a in args], ret, [recv] + args)
